@@ -562,3 +562,86 @@ Proof.
 Qed.
 
 End Migrate.
+
+(* ---------- C06: during Recover, Migrate and index.Write the segment's log and index files are durable at every step:
+   both only ever write to temporary files, fsync them, and rename them into place - a power loss at any point cuts
+   nothing from the files klevdb will read *)
+
+Lemma ld_app s a : forall b, live_durable s (a ++ b) <-> live_durable s a /\ live_durable (srun s a) b.
+Proof.
+  revert s. induction a as [|x a IH]; intros s b; cbn [app live_durable srun fold_left]; [tauto|].
+  fold (srun (sexec s x) a). rewrite IH. tauto.
+Qed.
+
+Lemma srun_app s a b : srun s (a ++ b) = srun (srun s a) b.
+Proof. unfold srun. apply fold_left_app. Qed.
+
+Lemma writes_rtmp_flags {A} (enc : A -> bytes) : forall xs l r i t,
+  l = true -> i = true ->
+  live_durable (mkS l r i t) (map (fun x => RWrite RfRtmp (enc x)) xs) /\
+  exists r', srun (mkS l r i t) (map (fun x => RWrite RfRtmp (enc x)) xs) = mkS l r' i t.
+Proof.
+  induction xs as [|x xs IH]; intros l r i t Hl Hi; cbn [map live_durable srun fold_left]; [split; [exact I|eexists; reflexivity]|].
+  cbn [sexec sset s_log s_idx s_rtmp s_itmp]. destruct (IH l false i t Hl Hi) as [H1 (r' & H2)].
+  split; [split; [exact Hl|split; [exact Hi|exact H1]]|]. exists r'. exact H2.
+Qed.
+
+Lemma writes_itmp_flags {A} (enc : A -> bytes) : forall xs l r i t,
+  l = true -> i = true ->
+  live_durable (mkS l r i t) (map (fun x => RWrite RfItmp (enc x)) xs) /\
+  exists t', srun (mkS l r i t) (map (fun x => RWrite RfItmp (enc x)) xs) = mkS l r i t'.
+Proof.
+  induction xs as [|x xs IH]; intros l r i t Hl Hi; cbn [map live_durable srun fold_left]; [split; [exact I|eexists; reflexivity]|].
+  cbn [sexec sset s_log s_idx s_rtmp s_itmp]. destruct (IH l r i false Hl Hi) as [H1 (t' & H2)].
+  split; [split; [exact Hl|split; [exact Hi|exact H1]]|]. exists t'. exact H2.
+Qed.
+
+(* the copy into the temporary log: live files untouched, the copy durable at the end *)
+Lemma copy_part_durable crc v ms r t :
+  live_durable (mkS true r true t) (copy_part crc v ms) /\ srun (mkS true r true t) (copy_part crc v ms) = mkS true true true t.
+Proof.
+  unfold copy_part. rewrite !ld_app, !srun_app. cbn [live_durable srun fold_left sexec sset s_log s_idx s_rtmp s_itmp].
+  destruct (writes_rtmp_flags (enc_rec crc v) ms true true true t eq_refl eq_refl) as [H1 (r' & H2)].
+  rewrite H2. cbn [live_durable fold_left sexec sset s_log s_idx s_rtmp s_itmp].
+  split; [|reflexivity]. split; [repeat split|]. split; [exact H1|]. repeat split.
+Qed.
+
+Lemma index_write_durable p iv items r t :
+  live_durable (mkS true r true t) (index_write_prog p iv items) /\
+  srun (mkS true r true t) (index_write_prog p iv items) = mkS true r true true.
+Proof.
+  unfold index_write_prog. rewrite !ld_app, !srun_app. cbn [live_durable srun fold_left sexec sset s_log s_idx s_rtmp s_itmp].
+  destruct (writes_itmp_flags (enc_item p) items true r true true eq_refl eq_refl) as [H1 (t' & H2)].
+  rewrite H2. cbn [live_durable fold_left sexec sset sget s_log s_idx s_rtmp s_itmp].
+  split; [|reflexivity]. split; [repeat split|]. split; [exact H1|]. repeat split.
+Qed.
+
+Theorem recover_prog_live_files_durable crc H p base b idx prog r t :
+  recover_prog crc H p base b idx = Ok prog -> live_durable (mkS true r true t) prog.
+Proof.
+  unfold recover_prog. destruct (log_version b base) as [v|]; [|discriminate]. cbn [bind].
+  destruct (scan_log crc (scan_fuel_of b) v b (hdr_size v)) as [[recs e] fin].
+  assert (Hgen : forall swap, (swap = RRename RfRtmp RfLog \/ swap = RRemove RfRtmp) ->
+            live_durable (mkS true r true t) (copy_part crc v (map snd recs) ++ [swap] ++ index_part p base idx (scan_items H p recs))).
+  { intros swap Hs. rewrite ld_app. destruct (copy_part_durable crc v (map snd recs) r t) as [H1 H2]. split; [exact H1|].
+    rewrite H2. cbn [app live_durable].
+    assert (Hsw : sexec (mkS true true true t) swap = mkS true true true t) by (destruct Hs as [-> | ->]; reflexivity).
+    rewrite Hsw. split; [reflexivity|]. split; [reflexivity|].
+    unfold index_part. destruct idx as [ib|]; [|exact I]. destruct (index_read p base ib) as [[iv have]|]; [|repeat split].
+    destruct (list_eqb item_eqb have (scan_items H p recs)); [exact I|]. cbn [live_durable sexec sset s_log s_idx s_rtmp s_itmp].
+    split; [reflexivity|]. split; [reflexivity|]. apply index_write_durable. }
+  destruct fin; intros E; try discriminate; apply Ok_inj in E; subst prog; apply Hgen; [now right|now left].
+Qed.
+
+Theorem migrate_prog_live_files_durable crc H p base mv iv b prog r t :
+  migrate_prog crc H p base mv iv b = Ok prog -> live_durable (mkS true r true t) prog.
+Proof.
+  unfold migrate_prog. destruct (log_version b base) as [v|]; [|discriminate]. cbn [bind].
+  destruct (ver_eqb v mv); [intros E; apply Ok_inj in E; subst prog; exact I|].
+  destruct (scan_log crc (scan_fuel_of b) v b (hdr_size v)) as [[recs e] fin]. destruct fin; try discriminate.
+  intros E. apply Ok_inj in E. subst prog. cbn [app live_durable sexec sset s_log s_idx s_rtmp s_itmp].
+  split; [reflexivity|]. split; [reflexivity|]. rewrite ld_app.
+  destruct (copy_part_durable crc mv (map snd recs) r t) as [H1 H2]. split; [exact H1|]. rewrite H2.
+  cbn [app live_durable sexec sset sget s_log s_idx s_rtmp s_itmp]. split; [reflexivity|]. split; [reflexivity|].
+  apply index_write_durable.
+Qed.
